@@ -2,7 +2,7 @@
 import vlib, proglib
 from proglib import DT
 
-PROP_FILES = ["Properties_C11.v", "Properties_refine.v"]
+PROP_FILES = ["Properties_C11.v", "Properties_refine.v", "Properties_compose.v"]
 
 
 def pre_run(ctx):
